@@ -1142,11 +1142,12 @@ func (app *App) ErrorHandler(ctx Ctx, err error) error {
 
 	path := ctx.Path()
 	for prefix, subApp := range app.mountFields.appList {
-		if prefix == "" || subApp.configured.ErrorHandler == nil || !hasMountPrefix(path, prefix) {
+		if prefix == "" || subApp.configured.ErrorHandler == nil || !hasMountPrefix(path, prefix, app.config.CaseSensitive) {
 			continue
 		}
 		// Every candidate is a prefix of the same path, so two different candidates differ in
-		// length: the longest one is the innermost mounted app, in whatever order the map is
+		// length (or in letter case only, which case-insensitive routing cannot tell apart
+		// either): the longest one is the innermost mounted app, in whatever order the map is
 		// iterated.
 		if len(prefix) > mountedPrefixLen {
 			mountedErrHandler = subApp.config.ErrorHandler
@@ -1162,9 +1163,13 @@ func (app *App) ErrorHandler(ctx Ctx, err error) error {
 }
 
 // hasMountPrefix reports whether path lies inside the mount prefix, i.e. the prefix ends at a
-// path segment boundary ("/api" contains "/api" and "/api/x" but not "/api-v2/x").
-func hasMountPrefix(path, prefix string) bool {
-	if !strings.HasPrefix(path, prefix) {
+// path segment boundary ("/api" contains "/api" and "/api/x" but not "/api-v2/x"). Like the router,
+// it ignores letter case unless routing is case sensitive.
+func hasMountPrefix(path, prefix string, caseSensitive bool) bool {
+	if len(path) < len(prefix) {
+		return false
+	}
+	if head := path[:len(prefix)]; head != prefix && (caseSensitive || !utils.EqualFold(head, prefix)) {
 		return false
 	}
 	return len(path) == len(prefix) || prefix[len(prefix)-1] == '/' || path[len(prefix)] == '/'
